@@ -304,7 +304,14 @@ func genKey(t *rapid.T, depth int) val.V {
 	return v
 }
 
-var namePool = []string{"a", "b", "zeta", "x1", "camelCase", "snake_case", "UPPER", "MAX_LEN", "K9", "Mixed_Case9", "_under", "i", "fn", "data"}
+var namePool = []string{"a", "b", "zeta", "x1", "camelCase", "snake_case", "UPPER", "MAX_LEN", "K9", "Mixed_Case9", "_under", "i", "fn", "data",
+	// names every session starts with (library functions written in grol, aliases): rebinding them is an ordinary binding
+	"str", "keys", "abs", "log2", "printf", "null", "Inf", "NaN"}
+
+var preSeeded = map[string]bool{"str": true, "keys": true, "abs": true, "log2": true, "printf": true, "null": true, "Inf": true, "NaN": true}
+
+// K-C14-1: Inf and NaN are ordinary names, and the written form of the special floats (+Inf is + applied to Inf).
+const kSpecialFloatNames = "K-C14-1"
 
 func nontrivialValue(v val.V) bool {
 	switch v.K {
@@ -375,12 +382,22 @@ func TestStates(t *testing.T) {
 	pbt.Check(t, 2000, 200000, func(rt *rapid.T) {
 		var c Case
 		nt := false
+		// with a length limit a binding that is skipped when saving reverts, after a reload, to what every session
+		// starts with under that name: the names sessions start with are only rebound without a limit
+		limited := rapid.IntRange(0, 3).Draw(rt, "limit") == 0
 		n := rapid.IntRange(1, 8).Draw(rt, "nvals")
 		used := map[string]bool{}
 		for i := 0; i < n; i++ {
 			name := rapid.SampledFrom(namePool).Draw(rt, "name")
-			if used[name] {
+			if used[name] || (limited && preSeeded[name]) {
 				continue
+			}
+			if (name == "Inf" || name == "NaN") && pbt.KnownOpen(kSpecialFloatNames) {
+				pbt.Excluded(kSpecialFloatNames)
+				continue
+			}
+			if preSeeded[name] {
+				pbt.Label("state:rebinds-a-name-every-session-starts-with")
 			}
 			used[name] = true
 			v := genValue(rt, 2)
@@ -399,7 +416,7 @@ func TestStates(t *testing.T) {
 			c.Calls = append(c.Calls, calls...)
 			nt = nt || multi
 		}
-		if rapid.IntRange(0, 3).Draw(rt, "limit") == 0 {
+		if limited {
 			c.MaxValueLen = rapid.SampledFrom([]int{1, 10, 40, 200, 4000}).Draw(rt, "maxlen")
 			if rapid.Bool().Draw(rt, "around") { // a string right at the limit
 				k := c.MaxValueLen
